@@ -260,7 +260,8 @@ class Shelxfile():
         for restraint in self.restraints:
             bad_atoms = []
             for restraint_atom in restraint.atoms:
-                if restraint_atom in ('>', '<', '='):
+                if restraint_atom in ('>', '<', '=') or '$' in restraint_atom:
+                    # Range operators, element wildcards ($C) and symmetry equivalents (C1_$1) are not atom names.
                     continue
                 if (restraint.residue_class or sum(restraint.residue_number) > 0) and '_' not in restraint_atom:
                     for num in restraint.residue_number:
